@@ -427,3 +427,32 @@ const smtPrelude = `(declare-datatypes ((Slice 0)) (((mk-slice (sl.arr Int) (sl.
 (declare-fun sat (Str Int) Int)
 (assert (forall ((s Str) (i Int)) (! (= (sat s i) (+ (gs.off s) i)) :pattern ((sat s i)))))
 `
+
+// soleDyn inspects the dynamic-type component of an interface term: a literal type id, 0 (nil), or an if-then-else
+// tree whose leaves are 0 and one single type id. It returns that id and whether nil is among the leaves.
+func soleDyn(d string) (id int64, nilable bool, ok bool) {
+	if n, lit := litVal(d); lit {
+		if n == 0 {
+			return 0, true, true
+		}
+		return n, false, n >= 1
+	}
+	h, a := splitApp(d)
+	if h != "ite" || len(a) != 3 {
+		return 0, false, false
+	}
+	i1, n1, ok1 := soleDyn(a[1])
+	i2, n2, ok2 := soleDyn(a[2])
+	if !ok1 || !ok2 {
+		return 0, false, false
+	}
+	switch {
+	case i1 == 0:
+		return i2, true, true
+	case i2 == 0:
+		return i1, true, true
+	case i1 == i2:
+		return i1, n1 || n2, true
+	}
+	return 0, false, false
+}
